@@ -6,12 +6,12 @@ from .common import *
 from .detectors import SPECS, gen_case, seed_of
 
 ID = "C02"
-PROPS = ["Prop_C02"]
+PROPS = ["Prop_C02", "Prop_C09", "Prop_C07", "Prop_C10"]
 IMPORTS = c01.IMPORTS
 CORR_NAME = "Corr_C02: the models whose clean-slate theorems are proved (DDM, EDDM, STEPD, PageHinkley, CUSUM on the generic machine) = the implementation"
 TRUSTED = ["Coq 8.16.1 kernel + vm_compute + primitive floats",
            "hand-written models tied to the code by bit-level differential execution (DDM, EDDM, STEPD, PageHinkley, CUSUM)",
-           "for KdqTreeStreaming, KdqTreeBatch, HDDDM, CDBD, NNDVI the property is decided on the implementation by the twin experiment (fresh detector, same numpy seed schedule)",
+           "KdqTreeStreaming / KdqTreeBatch (Prop_C09: C09_clean_slate_*), HDDDM / CDBD (Prop_C07: C07_clean_slate_drift / _set_reference) and NNDVI (Prop_C10: C10_nndvi_history: the reference after a drift is the drifted batch, decisions depend on reference and batch only) have their clean-slate theorems in those files (re-checked here; models tied to the code by C09/C07/C10); in this check the property is additionally decided on the implementation by the twin experiment (fresh detector, same numpy seed schedule)",
            "harness/c02.py, harness/detectors.py"]
 RULE = ("random multi-drift histories for DDM, EDDM, STEPD, PageHinkley, CUSUM, KdqTreeStreaming, KdqTreeBatch, HDDDM, CDBD, NNDVI; after every reported "
         "drift a newly constructed detector (plus documented carry-over) is fed the remaining data under the same seed schedule and every observable is "
